@@ -305,6 +305,7 @@ func rulesC17(r *Run) {
 	r.Kind("R1", "K9")
 	ruleSecureKinds(r, "R1")
 	ruleSecureNoSkip(r, "R1")
+	ruleScrubberReadsNoSharedState(r, "R1")
 	ruleTimeExemptionOnElement(r, "R1") // untagged data is left intact
 	ruleScrubLoopsRunToEnd(r, "R1")
 	ruleScrubbedCopyStoredBack(r, "R1")
@@ -2112,4 +2113,66 @@ func ruleScrubbedCopyStoredBack(r *Run, rule string) {
 	if n == 0 {
 		r.Unresolved(rule, "kind-dispatch cases that scrub a copy")
 	}
+}
+
+// ruleScrubberReadsNoSharedState (round-4 seed C17-8): whether a field is scrubbed is decided by the tag of THAT field of THAT type.
+// The functions Secure reaches may compare with a package-level value (timeType) but keep nothing between calls: a cache keyed
+// by anything less than the reflect.Type itself (a name — anonymous and function-local types share theirs) answers for one
+// type with the tags of another, and a secure-tagged field goes unscrubbed. A package-level variable of package clone is used
+// by the scrubber only as an operand of == / !=.
+func ruleScrubberReadsNoSharedState(r *Run, rule string) {
+	pkg := r.P.Pkgs[pkgClone]
+	if pkg == nil {
+		r.Unresolved(rule, "package clone")
+		return
+	}
+	info := pkg.TypesInfo
+	reach := r.P.CallGraph().Reach([]string{cloneKey("Secure")}, func(e CallEdge) bool { return strings.HasPrefix(e.Callee, pkgClone+".") })
+	reach[cloneKey("Secure")] = ""
+	bad := ""
+	var bpos token.Pos
+	n := 0
+	for k := range reach {
+		fn := r.P.Funcs[k]
+		if fn == nil || fn.Decl.Body == nil || fn.Pkg != pkg {
+			continue
+		}
+		n++
+		var stack []ast.Node
+		ast.Inspect(fn.Decl.Body, func(x ast.Node) bool {
+			if x == nil {
+				stack = stack[:len(stack)-1]
+				return true
+			}
+			stack = append(stack, x)
+			id, ok := x.(*ast.Ident)
+			if !ok {
+				return true
+			}
+			v, isVar := info.Uses[id].(*types.Var)
+			if !isVar || v.Pkg() != pkg.Types || v.Parent() != pkg.Types.Scope() {
+				return true
+			}
+			okUse := false
+			if len(stack) >= 2 {
+				if be, ok := stack[len(stack)-2].(*ast.BinaryExpr); ok && (be.Op == token.EQL || be.Op == token.NEQ) {
+					okUse = true
+				}
+			}
+			if !okUse && (bad == "" || id.Pos() < bpos) {
+				bad, bpos = ShortFn(k)+" uses the package-level variable "+v.Name()+" for more than a comparison: what the scrubber decides about a field must depend on that field's own tag, not on state kept between calls (a cache keyed by a type's name answers for anonymous or same-named local types with the tags of another type)", id.Pos()
+			}
+			return true
+		})
+	}
+	if n == 0 {
+		r.Unresolved(rule, "functions Secure reaches in package clone")
+		return
+	}
+	if bpos == 0 {
+		if f := r.P.Funcs[cloneKey("Secure")]; f != nil {
+			bpos = f.Decl.Pos()
+		}
+	}
+	r.Check(rule, "scrubber-keeps-no-state", bpos, bad == "", "%s", orOK(bad, "package-level variables are only compared with"))
 }
